@@ -178,7 +178,10 @@ def beta_norm(m, fuel):
         fuel[0] -= 1
         if fuel[0] < 0:
             raise OutOfFuel()
-        return beta_norm(_sb(f[3], m[2], 0), fuel)
+        r = _sb(f[3], m[2], 0)
+        if size(r) > 3000:
+            raise OutOfFuel()       # size explosion: outside the bounds of this check
+        return beta_norm(r, fuel)
     return ('app', f, beta_norm(m[2], fuel))
 
 
@@ -278,6 +281,7 @@ class Model:
     types are full function spaces (values = tuples indexed by the domain enumeration),
     `equals` is real equality, every other atom is a free symbol with a PRNG-chosen value."""
     LIMIT = 300
+    EVAL_BUDGET = 60000
 
     def __init__(self, seed):
         self.seed = seed
@@ -320,8 +324,13 @@ class Model:
         """value of a closed well-typed term.  With ti/sval/vval: value of m under the
         instantiation (types substituted at the leaves, instantiated variables looked up)"""
         ti = ti or {}
+        steps = [0]
+        budget = self.EVAL_BUDGET
 
         def rec(t, env):
+            steps[0] += 1
+            if steps[0] > budget:
+                raise TooBig()      # nested binders over large carriers: skip this model, never a verdict
             k = t[0]
             if k == 'b':
                 return env[t[1]]
